@@ -144,10 +144,11 @@ PROPERTIES["C04"] = {
     "runs": lambda ctx: [
              Run("chains", ["./internal/zzverif/hchains"], CHAINS_HARNESS,
                  ["VerifC06Go", "VerifC06Java", "VerifC06PHP", "VerifC06Python", "VerifC06TypeScript", "VerifC06GoSpine", "VerifC06JavaSpine", "VerifC06PHPSpine", "VerifC06PythonSpine"],
-                 "internal/zzverif/hchains", test_pkg_name="hchains", needs_leaf=True, panics="violation", judge="panic"),
+                 "internal/zzverif/hchains", test_pkg_name="hchains", needs_leaf=True, panics="violation", judge="panic",
+                 quick_entries=["VerifC06Go", "VerifC06Java", "VerifC06PHP", "VerifC06Python", "VerifC06GoSpine", "VerifC06PHPSpine"]),
              Run("compiler", ["./internal/ast/compiler"], COMPILER_HARNESS,
                  ["VerifC07UserPasses", "VerifC05Rename", "VerifC05Prefix", "VerifC05Duplicate", "VerifC05Unspec", "VerifC05ReplaceReference", "VerifC05AllowedObjects"],
-                 "internal/ast/compiler", needs_leaf=True, panics="violation", judge="panic"),
+                 "internal/ast/compiler", needs_leaf=True, panics="violation", judge="panic", quick_entries=["VerifC07UserPasses"]),
              Run("orderedmap", ["./internal/orderedmap"], {"internal/orderedmap/zz_verif_c19.go": "harness/orderedmap/zz_verif_c19.go"},
                  ["VerifC19Step", "VerifC19History"], "internal/orderedmap", panics="violation", judge="panic"),
              Run("jsonschema_jenny", ["./internal/jennies/jsonschema"], _h(("internal/jennies/jsonschema/zz_verif_c12.go", "harness/jjsonschema/zz_verif_c12.go")),
